@@ -153,7 +153,8 @@ impl byteseries::Decoder for RawDecoder {
     }
 }
 
-/// `BytesResampler{p}` of SCRIPT.md: one `u64` per payload byte, the library's
+/// `BytesResampler{p}` of SCRIPT.md: one `u64` per payload byte (bytes >= 128 with
+/// their lowest bit cleared), the library's
 /// own `impl ResampleState for Vec<u64>` as state, `as u8` on the way back.
 #[derive(Debug, Clone)]
 struct BytesResampler {
@@ -163,7 +164,15 @@ struct BytesResampler {
 impl byteseries::Decoder for BytesResampler {
     type Item = Vec<u64>;
     fn decode_payload(&mut self, payload: &[u8]) -> Vec<u64> {
-        payload.iter().map(|b| u64::from(*b)).collect()
+        // bytes from 128 on lose their lowest bit: decode followed by encode is
+        // deliberately not the identity on every payload (Bytes.rs_dec of the model)
+        payload
+            .iter()
+            .map(|b| {
+                let n = u64::from(*b);
+                if n < 128 { n } else { n & !1 }
+            })
+            .collect()
     }
 }
 
